@@ -55,6 +55,7 @@ def run_shard(prop, subname, shard, nshards, tier, seed, armed):
     state = {"t_fail": None, "stop": False}
 
     def handle(case, count=True):
+        state["last_case"] = case
         res = sub.run_case(case)
         if count:
             rec.case(case, res)
@@ -124,13 +125,24 @@ def run_shard(prop, subname, shard, nshards, tier, seed, armed):
                     raise
     except HarnessError as e:
         out["harness_errors"].append("%s" % e)
+        _save_harness_case(prop, subname, shard, state.get("last_case"))
     except Exception:
         out["harness_errors"].append(traceback.format_exc()[-3000:])
+        _save_harness_case(prop, subname, shard, state.get("last_case"))
     if best:
         out["violations"].append({"case": best["case"], "v": best["v"]})
     out.update(rec.summary())
     out["wall_s"] = time.time() - t0
     return out
+
+
+def _save_harness_case(prop, subname, shard, case):
+    try:
+        os.makedirs(os.path.join(HERE, "out"), exist_ok=True)
+        with open(os.path.join(HERE, "out", "HARNESS-%s-%s-%s.json" % (prop, subname, shard)), "w") as fp:
+            json.dump({"property": prop, "subcheck": subname, "case": case}, fp, default=repr)
+    except Exception:
+        pass
 
 
 def run_replays(prop, files):
